@@ -533,6 +533,9 @@ class Harness(object):
         self.replay = replay
         self.expect_exhaustive = expect_exhaustive
         self.home = home
+        sc = os.environ.get('DFVERIF_BUDGET_SCALE')
+        if sc and self.wall_budget:
+            self.wall_budget = max(20, int(self.wall_budget * float(sc)))      # smoke-testing a tier with shortened exploration budgets
 
 
 def load_known():
@@ -564,6 +567,10 @@ def _run_one(pid, h, known):
     body = getattr(mod, h.body)
     h.cfg.pid = pid
     h.cfg.home = h.home or pid
+    h.cfg.seed = int(os.environ.get('VERIF_SEED', '0') or 0)
+    if os.environ.get('VERIF_TIER_EFFECTIVE') == 'thorough' and not h.cfg.fork_queries:
+        h.cfg.crosscheck_rate = 0.001
+        h.cfg.portfolio_s = 20
     try:
         res = core.explore(('dfverif.harness', 'sym_entry', {'module': h.module, 'body': h.body, 'params': h.params}),
                            cfg=h.cfg, nproc=h.nproc, max_paths=h.max_paths, wall_budget=h.wall_budget)
@@ -571,7 +578,11 @@ def _run_one(pid, h, known):
         out['errors'].append("anchor: %s" % e)
         return out
     summ = res.summary()
-    rep = {'harness': h.name, 'paths': res.paths, 'status': res.status, 'obligations': len(res.obls),
+    disagreements = [n_ for n_ in res.notes if 'SOLVER DISAGREEMENT' in n_]
+    if disagreements:
+        out['errors'].append("%s: %s" % (h.name, disagreements[0]))
+    ncross = sum(1 for n_ in res.notes if n_.startswith('crosschecked:'))
+    rep = {'harness': h.name, 'crosschecked_obligations': ncross, 'paths': res.paths, 'status': res.status, 'obligations': len(res.obls),
            'summary': summ, 'queries': res.nq, 'solver_s': round(res.solver_s, 2), 'kills': res.kills,
            'left': res.left, 'killed_paths': res.killed_paths, 'exhaustive': res.exhaustive,
            'wall_s': round(res.wall, 2), 'bounds': h.bounds, 'unknown_queries': res.unknowns,
